@@ -146,7 +146,8 @@ fn main() {
         let t = &TEMPLATES[j.t];
         ctx.count(&format!("template:{}", t.name));
         if !j.src[..j.err_at].is_ascii() { ctx.count("non-ascii-before-error"); }
-        ctx.case(format!("lex {} #{}", hex_str(&j.src), t.name), lexed);
+        // `+na` = non-ASCII text precedes the error site (the non-trivial cases of this property)
+        ctx.case(format!("lex {} #{}{}", hex_str(&j.src), t.name, if j.src[..j.err_at].is_ascii() { "" } else { "+na" }), lexed);
         let diags = match diags {
             Ok(d) => d,
             Err(p) => { ctx.spec_fail(format!("{}: analysis panicked ({p}) on {:?}", t.name, j.src)); continue; }
@@ -293,7 +294,7 @@ fn main() {
     let eresults = par_map(&ejobs, |j| (diagnostics(&j.src), impl_lex(&j.src, true)));
     for (j, (diags, lexed)) in ejobs.iter().zip(eresults) {
         ctx.count("family:end-of-input");
-        ctx.case(format!("lex {} #end-of-input", hex_str(&j.src)), lexed);
+        ctx.case(format!("lex {} #end-of-input{}", hex_str(&j.src), if j.src.trim_end_matches('\n').chars().next_back().map_or(true, |c| c.is_ascii()) { "" } else { "+na" }), lexed);
         let diags = match diags {
             Ok(d) => d,
             Err(p) => { ctx.spec_fail(format!("{}: analysis panicked ({p}) on {:?}", j.what, j.src)); continue; }
